@@ -29,7 +29,7 @@ VALUES = ['utf-8', 'dos', 'unix', 'mac', 'json', 'yaml', 'text/plain', 'text/htm
 CHOICE_ATTRS = ['meta_format', 'preamble_line_endings', 'preamble_mimetype', 'diff_line_endings', 'diff_type', 'version']
 NEAR = ['', 'j', 'js', 'son', 'on', 'JSON', 'json ', ' json', 'jsonjson', 'uni', 'nix', 'do', 'os', 'DOS', 'unix\n', 'unixdos',
         'tex', 'ext', 'text/', 'plain', 'text/plaintext/markdown', 'mark', 'bin', 'ary', 'Binary', 'textbinary', '1', '1.', '.0', '1.00',
-        '1.01.0', 'text/plain;', 'text/x-markdown']
+        '1.01.0', 'text/plain;', 'text/x-markdown', 'Text/Plain', 'TEXT/MARKDOWN', 'text/Markdown', 'Unix', 'Dos', 'Text', 'Json']
 
 
 def run(run, replay=None):
